@@ -96,6 +96,7 @@ func runC17(c *core.Ctx) {
 	runR99(c, "R17.5")
 	runR176(c)
 	runR177(c)
+	runR178(c)
 
 	const rel = "handlers/inmem"
 	impl, ok := handlerImpl(c, rel)
